@@ -55,6 +55,34 @@ fn sq(d: &[f64]) -> Matrix {
     Matrix::new(d.to_vec(), n as i32, n as i32)
 }
 
+/// slice `lu` and `Matrix::lu` of the same array: factor, pivots, factor, pivots (`P` = panicked)
+fn lu_blocks(a: &[f64]) -> Vec<String> {
+    let r1 = catch_unwind(AssertUnwindSafe(|| lu(a)));
+    let r2 = catch_unwind(AssertUnwindSafe(|| sq(a).lu()));
+    let mut bs = Vec::new();
+    match r1 {
+        Ok((f, p)) => {
+            bs.push(show_vec(&f));
+            bs.push(show_ints(&p));
+        }
+        Err(_) => {
+            bs.push("P".to_string());
+            bs.push("P".to_string());
+        }
+    }
+    match r2 {
+        Ok((f, p)) => {
+            bs.push(show_vec(&f.data));
+            bs.push(show_ints(&p));
+        }
+        Err(_) => {
+            bs.push("P".to_string());
+            bs.push("P".to_string());
+        }
+    }
+    bs
+}
+
 fn composite(op: &str, t: &mut Toks) -> R<Option<String>> {
     let out = match op {
         "entries" => {
@@ -119,29 +147,14 @@ fn composite(op: &str, t: &mut Toks) -> R<Option<String>> {
         "both_lu" => {
             let a = t.vec()?;
             t.end()?;
-            let r1 = catch_unwind(AssertUnwindSafe(|| lu(&a)));
-            let r2 = catch_unwind(AssertUnwindSafe(|| sq(&a).lu()));
-            let mut bs = Vec::new();
-            match r1 {
-                Ok((f, p)) => {
-                    bs.push(show_vec(&f));
-                    bs.push(show_ints(&p));
-                }
-                Err(_) => {
-                    bs.push("P".to_string());
-                    bs.push("P".to_string());
-                }
-            }
-            match r2 {
-                Ok((f, p)) => {
-                    bs.push(show_vec(&f.data));
-                    bs.push(show_ints(&p));
-                }
-                Err(_) => {
-                    bs.push("P".to_string());
-                    bs.push("P".to_string());
-                }
-            }
+            lu_blocks(&a).join(" ")
+        }
+        "lu_pair" => {
+            let a = t.vec()?;
+            let b = t.vec()?;
+            t.end()?;
+            let mut bs = lu_blocks(&a);
+            bs.extend(lu_blocks(&b));
             bs.join(" ")
         }
         "both_chol" => {
